@@ -204,7 +204,7 @@ pub fn run(ctx: &Ctx, rec: &mut Rec) {
                 zk = f.mul(&zk, &ctx.c.zeta);
             }
         }
-        let npairs = ctx.scale(4000, 200_000);
+        let npairs = ctx.scale(20_000, 200_000);
         for i in 0..npairs {
             if i % n != w {
                 continue;
@@ -213,7 +213,7 @@ pub fn run(ctx: &Ctx, rec: &mut Rec) {
             let bb = &zoo[rand_range(&mut rng, zoo.len())].0;
             judge_sqrt(ctx, rec, a, bb, "zoo-pair", false);
         }
-        let nrand = ctx.scale(40_000, 4_000_000);
+        let nrand = ctx.scale(200_000, 4_000_000);
         for i in 0..nrand {
             if i % n != w {
                 continue;
@@ -257,7 +257,7 @@ fn generic_sqrt(ctx: &Ctx, rec: &mut Rec) {
             par(rec, |w, n, rec| {
                 let mut rng = rng_for(ctx.seed, P, w, 3);
                 let mut vals: Vec<B> = zoo.iter().map(|z| z.0.clone()).collect();
-                for _ in 0..ctx.scale(3000, 300_000) {
+                for _ in 0..ctx.scale(10_000, 300_000) {
                     vals.push(rand_below(&mut rng, &fld.p));
                 }
                 // squares of zoo values (guaranteed residues incl. structured ones)
@@ -304,4 +304,51 @@ fn generic_sqrt(ctx: &Ctx, rec: &mut Rec) {
     one_field!("Fq", &ctx.c.f, fq, fqb);
     one_field!("Fr", &ctx.fr, fr, frb);
     one_field!("Fp", &ctx.fp, fp, fpb);
+}
+
+/// Fresh-process lazy-initialisation stress: this subcommand is started many times by the
+/// driver; in each fresh process 16 threads are released by a barrier into their *first*
+/// `sqrt_ratio` call (racing on the lazily built lookup tables), then the contract oracle
+/// judges every result.
+pub fn run_lazyinit(ctx: &Ctx, rec: &mut Rec) {
+    let f = &ctx.c.f;
+    let nthreads = 16usize;
+    let barrier = std::sync::Arc::new(std::sync::Barrier::new(nthreads));
+    let mut rng = rng_for(ctx.seed, P, 4242, std::process::id() as u64);
+    let inputs: Vec<(B, B)> = (0..nthreads).map(|i| if i == 0 { (b(1), b(4)) } else { (rand_below(&mut rng, &f.p), rand_below(&mut rng, &f.p)) }).collect();
+    let results: Vec<Result<(bool, B), String>> = std::thread::scope(|s| {
+        let hs: Vec<_> = inputs
+            .iter()
+            .map(|(n, d)| {
+                let bar = barrier.clone();
+                let (ln, ld) = (fq(n), fq(d));
+                s.spawn(move || {
+                    bar.wait();
+                    guarded(|| {
+                        let (w, y) = sqrt_ratio(&ln, &ld);
+                        (w, fqb(&y))
+                    })
+                })
+            })
+            .collect();
+        hs.into_iter().map(|h| h.join().expect("join")).collect()
+    });
+    rec.declare_class("first-use-race");
+    for ((num, den), r) in inputs.iter().zip(results) {
+        rec.class("first-use-race");
+        rec.eval(&("lazy", num.to_bytes_le(), den.to_bytes_le(), std::process::id()), false);
+        match r {
+            Err(pn) => rec.violation(format!("{P}:lazy-init:panic"), format!("first use of sqrt_ratio under a 16-thread race panicked: {pn}"), json!({"num": hexs(num), "den": hexs(den)})),
+            Ok((w, y)) => {
+                let ratio = f.div(num, den).unwrap_or(b(0));
+                let is_sq = f.legendre(&ratio) == 1;
+                let rhs = if is_sq { num.clone() } else { f.mul(&ctx.c.zeta, num) };
+                if num != &b(0) && den != &b(0) && (w != is_sq || f.mul(&f.sq(&y), den) != rhs) {
+                    rec.violation(format!("{P}:lazy-init:wrong-result"), "result of a racing first use violates the contract", json!({"num": hexs(num), "den": hexs(den), "was_square": w, "y": hexs(&y)}));
+                }
+            }
+        }
+    }
+    rec.count("fresh_process_first_use_races", 1);
+    rec.count("threads_released_together", nthreads as u64);
 }
